@@ -4,7 +4,8 @@
    incarnation mechanism (a suspected member refutes by bumping its incarnation; a refuted
    suspicion timeout has no effect at all).  The cluster statement (every drop point) is decided
    by exhaustive single-loss simulation of real instances. *)
-From Foca Require Import Laws MembersM ProbeM FocaM L_Members L_MembersInv L_Join L_Probe L_Mech L_Timeout.
+From Foca Require Import Laws MembersM ProbeM FocaM L_Members L_MembersInv L_Join L_Probe L_Mech L_Timeout L_RoundEnd L_Evidence.
+From Coq Require Import Permutation.
 
 Section C04.
 Context {Id Addr : Type} {IO : IdOps Id Addr} {CO : CodecOps Id} {HO : HandlerOps Id}.
@@ -35,9 +36,26 @@ Theorem C04_refuted_timeout_noop (rnd : oracle) (f : @foca Id Addr HO) (x : Id) 
   step rnd f (timeout x inc tok) = (f, [], Done, 0).
 Proof. exact (timeout_cancelled_noop rnd f x inc tok). Qed.
 
+(* ONE SURVIVING PATH SUFFICES, any interleaving: a single counted ForwardedAck (the direct Ping or Ack
+   having been lost) is evidence, it survives every later call of the round, and the round then ends
+   without any suspicion *)
+Theorem C04_one_forwarded_ack_suffices (rnd : oracle) (l : list (@input Id)) (f : @foca Id Addr HO) (from : Id) (n : N) (pos : nat) :
+  p_number (prb f) = n -> find_index (fun i => id_eqb i from) (p_indirect (prb f)) = Some pos ->
+  let f0 := set_prb f (fst (probe_receive_indirect_ack (prb f) from n)) in
+  no_live_probe rnd f0 l -> conn (run_calls rnd f0 l) = Connected ->
+  let g := run_calls rnd f0 l in
+  let '(f', es, _, _) := step rnd g (ITimer (TProbeRandomMember (token g))) in
+  cstd_of es = [] /\ Permutation (inner (mems f')) (inner (mems g)).
+Proof.
+  intros E F. cbv zeta. intros NL Cn.
+  apply (round_with_evidence_ends_quietly rnd _ Cn). apply (history_keeps_evidence rnd l _ NL).
+  cbn [prb set_prb]. exact (forwarded_ack_is_evidence (prb f) from n pos E F).
+Qed.
+
 End C04.
 
 Print Assumptions C04_indirect_absorbs.
 Print Assumptions C04_self_refute.
 Print Assumptions C04_higher_incarnation_refutes.
 Print Assumptions C04_refuted_timeout_noop.
+Print Assumptions C04_one_forwarded_ack_suffices.
